@@ -34,7 +34,8 @@ RULE = ("an observation sequence of 1-40 update(value,total) calls x a "
         "generator holds 2-5 parameter combinations in one object "
         "(append_all_results, then merge_all_results under random groupings); "
         "combine grids use parameter names whose text order differs from their "
-        "numeric order. ")
+        "numeric order. "
+        "Combine is driven with all four result types and with grids around zero; the accumulate flag reaches Result as bool / numpy bool / 0-1. ")
 ASSUMPTIONS = ["chunks are non-empty (a MISC result merged with a never-updated "
                "operand is outside 'the last observation wins')",
                "statistics are read through the public to_dict()/getters"]
@@ -222,6 +223,10 @@ def snap_result(r):
 def case_result(ctx, rng, idx):
     t = TYPES[idx % 4]
     acc = bool((idx // 4) % 2)
+    if rng.random() < 0.25:
+        # the flag as the caller holds it (result of a numpy comparison, 0/1):
+        # whatever it means for the history lists, it means the same for every grouping
+        acc = [np.bool_(acc), int(acc)][int(rng.integers(0, 2))]
     vclass = "exact" if (idx // 8) % 2 == 0 else "float"
     if t == Result.CHOICETYPE:
         vclass = "exact"
@@ -229,7 +234,8 @@ def case_result(ctx, rng, idx):
     k = int(rng.integers(1, min(n, 8) + 1))
     tree = ["left", "right", "random", "into-fresh"][int(rng.integers(0, 4))]
     obs = gen_obs(rng, t, n, vclass)
-    tag = {"type": TNAME[t], "accumulate": acc, "vclass": vclass, "n": n, "chunks": k,
+    tag = {"type": TNAME[t], "accumulate": "%s(%s)" % (type(acc).__name__, acc), "vclass": vclass,
+           "n": n, "chunks": k,
            "tree": tree, "obs_head": [(repr(v), repr(tt)) for v, tt in obs[:6]]}
     okc, ref = ctx.call("grouping-independent", accumulate, "r", t, acc, obs, detail=tag)
     if not okc:
@@ -450,9 +456,12 @@ def case_multi(ctx, rng, idx):
 def case_combine(ctx, rng, idx):
     """combine_simulation_results on grids with overlapping unpacked values."""
     nunp = int(rng.integers(1, 3))
-    t = [Result.SUMTYPE, Result.RATIOTYPE, Result.CHOICETYPE][idx % 3]
+    t = [Result.SUMTYPE, Result.RATIOTYPE, Result.CHOICETYPE, Result.MISCTYPE][idx % 4]
     acc = False
     universe = {"a": np.arange(1, 7), "b": np.array([0.5, 1.0, 2.5, 4.0])}
+    if (idx // 9) % 3 == 2:
+        # values around zero (SNRs in dB, offsets): 0 / 0.0 is a value like any other
+        universe = {"a": np.arange(-2, 4), "b": np.array([-5.0, 0.0, 5.0, 10.0])}
     if (idx // 9) % 3 == 1:
         # closely spaced tiny values (noise variances and the like)
         universe = {"a": np.arange(1, 7) * 1e-9, "b": np.array([1e-12, 1e-11, 3e-12, 2e-10])}
